@@ -58,6 +58,7 @@ type Features struct {
 	Large       bool // more than a bucket's worth of everything: maps grow, outputs get long
 	DefaultNS   bool // one namespace is `default`, and resources in it may leave the namespace field out
 	OnlyIP      bool // every rule peer is an ipBlock (workloads talk to addresses only)
+	Iso         bool // an extra namespace "iso" whose only workload is cut off from every real peer but not from hypothetical ones
 }
 
 var allKinds = []string{"Deployment", "ReplicaSet", "StatefulSet", "DaemonSet", "Job", "CronJob", "ReplicationController", "Pod"}
@@ -76,6 +77,7 @@ func drawFeatures(r *rng) Features {
 	}
 	f.PortDrift = f.SharedOwner && r.chance(1, 3)
 	f.DefaultNS = r.chance(1, 4)
+	f.Iso = r.chance(1, 5)
 	if r.chance(1, 10) {
 		f.Large = true
 		f.NNamespaces = 3
@@ -228,7 +230,11 @@ func randSelector(r *rng, f *Features, allowEmpty bool) metav1.LabelSelector {
 // kubernetes.io/metadata.name label (an existing one or one nobody declared).
 func randNsSelector(r *rng, f *Features, allowEmpty bool) metav1.LabelSelector {
 	if r.chance(1, 4) {
-		ns := pick(r, append(append([]string{}, nsNames[:f.NNamespaces]...), "default", "elsewhere"))
+		cands := append(append([]string{}, nsNames[:f.NNamespaces]...), "default", "elsewhere")
+		if f.Iso {
+			cands = append(cands, "iso", "iso")
+		}
+		ns := pick(r, cands)
 		if r.chance(1, 3) {
 			return metav1.LabelSelector{MatchExpressions: []metav1.LabelSelectorRequirement{{Key: "kubernetes.io/metadata.name", Operator: metav1.LabelSelectorOpIn, Values: []string{ns}}}}
 		}
@@ -673,6 +679,31 @@ func genWorld(r *rng, f Features) *World {
 				}
 				w.Docs = append(w.Docs, toDoc("Route", t.ns, rt.Name, rt))
 			}
+		}
+	}
+	if f.Iso && !f.PodsOnly {
+		// a namespace that shows up in no connection line, only in exposure lines
+		if r.chance(1, 2) {
+			w.Docs = append(w.Docs, nsDoc("iso", randLabels(r, 0)))
+			w.HasNsObj["iso"] = true
+		}
+		w.Docs = append(w.Docs, workloadDoc(r, wl{"iso", "wiso", pick(r, []string{"Deployment", "StatefulSet", "DaemonSet"}), map[string]string{"app": "iso"}, randContainerPorts(r)}))
+		w.Workloads = append(w.Workloads, "iso/wiso")
+		ghost := metav1.LabelSelector{MatchLabels: map[string]string{"app": "ghost"}}
+		np := &netv1.NetworkPolicy{TypeMeta: metav1.TypeMeta{APIVersion: "networking.k8s.io/v1", Kind: "NetworkPolicy"}, ObjectMeta: metav1.ObjectMeta{Name: "npiso", Namespace: "iso"},
+			Spec: netv1.NetworkPolicySpec{PolicyTypes: []netv1.PolicyType{netv1.PolicyTypeIngress, netv1.PolicyTypeEgress},
+				Ingress: []netv1.NetworkPolicyIngressRule{{From: []netv1.NetworkPolicyPeer{{PodSelector: &ghost}}, Ports: randNPPorts(r, &f, false)}},
+				Egress:  []netv1.NetworkPolicyEgressRule{{To: []netv1.NetworkPolicyPeer{{PodSelector: &ghost}}}}}}
+		w.Docs = append(w.Docs, toDoc("NetworkPolicy", "iso", "npiso", np))
+		if r.chance(1, 2) {
+			// somebody outside talks to hypothetical pods of that namespace, named through its automatic label
+			isoNS := metav1.LabelSelector{MatchLabels: map[string]string{"kubernetes.io/metadata.name": "iso"}}
+			who := metav1.LabelSelector{MatchLabels: map[string]string{"app": pick(r, []string{"ghost", "x"})}}
+			from := pick(r, nss)
+			np2 := &netv1.NetworkPolicy{TypeMeta: metav1.TypeMeta{APIVersion: "networking.k8s.io/v1", Kind: "NetworkPolicy"}, ObjectMeta: metav1.ObjectMeta{Name: "nptoiso", Namespace: from},
+				Spec: netv1.NetworkPolicySpec{PolicyTypes: []netv1.PolicyType{netv1.PolicyTypeEgress},
+					Egress: []netv1.NetworkPolicyEgressRule{{To: []netv1.NetworkPolicyPeer{{NamespaceSelector: &isoNS, PodSelector: &who}}, Ports: randNPPorts(r, &f, false)}}}}
+			w.Docs = append(w.Docs, toDoc("NetworkPolicy", from, "nptoiso", np2))
 		}
 	}
 	if f.DefaultNS {
